@@ -149,7 +149,7 @@ func TestVerifC12Churn(t *testing.T) {
 	}
 	defer sysutil.UseCgroupsV2.Store(false)
 
-	n := h.N(4000, 60000)
+	n := h.N(3000, 60000)
 	for idx := 0; idx < n; idx++ {
 		r := h.Begin(idx)
 		if r == nil {
